@@ -75,6 +75,7 @@ Qed.
 Section ConcProofs.
   Variable V : Type.
   Variable msh : V -> option bytes.
+  Variable fx : bool.                         (* fix_n1: with or without proposed_fixes/C03-N1.diff *)
 
   Local Notation state := (state V).
   Local Notation stepm := (step msh).
@@ -153,12 +154,12 @@ Section ConcProofs.
   Qed.
 
   (* a step of the lock holder that stays inside the critical section *)
-  Lemma inv_local (s : state) i p p' chunk dt w' t' :
+  Lemma inv_local (s : state) i p p' chunk dt w' t' br :
     Inv s -> holder s = Some i -> at_ (thr s i) = p ->
     w' = wire s ++ chunk -> t' = tx s + dt ->
     p' <> PIdle -> pc_ok p' ->
     cur_w p' = cur_w p ++ chunk -> cur_call i p' = cur_call i p -> cur_tx p' = cur_tx p + dt ->
-    Inv {| thr := set_pc V s i p'; holder := holder s; wire := w'; tx := t';
+    Inv {| thr := set_pc V s i p'; holder := holder s; wire := w'; tx := t'; broken := br;
            acq := acq s; done := done s |}.
   Proof.
     intros I Hh Hp -> -> Hne Hok Hw Hc Ht.
@@ -173,7 +174,7 @@ Section ConcProofs.
 
   Local Opaque N.add.
 
-  Theorem step_inv s ia s' : Inv s -> stepm true s ia = Some s' -> Inv s'.
+  Theorem step_inv s ia s' : Inv s -> stepm true fx s ia = Some s' -> Inv s'.
   Proof.
     intros I H. destruct ia as [i a]. unfold step in H.
     destruct a as [| | |k|k|k| |]; destruct (at_ (thr s i)) as [|v|v b|v b sent w|v w n ok] eqn:Ep; try discriminate.
@@ -202,6 +203,7 @@ Section ConcProofs.
       + destruct (msh v); reflexivity.
     - (* AHeader *)
       assert (holder s = Some i) as Hh by (apply busy_is_holder; [exact I|rewrite Ep; discriminate]).
+      destruct (fx && broken s); [discriminate|].
       injection H as <-.
       pose proof (proj2 (inv_cur s I i Hh)) as Hok. rewrite Ep in Hok. unfold pc_ok in Hok.
       eapply (inv_local s i (PHeader v b) _ (header b) 0);
@@ -209,7 +211,8 @@ Section ConcProofs.
       unfold pc_ok. rewrite takeN_0, app_nil_r. repeat split; [exact Hok|lia].
     - (* AHeaderFail *)
       assert (holder s = Some i) as Hh by (apply busy_is_holder; [exact I|rewrite Ep; discriminate]).
-      destruct (k <? 4) eqn:En; [|discriminate]. apply N.ltb_lt in En. injection H as <-.
+      destruct ((k <? 4) && (negb (fx && broken s) || (k =? 0))) eqn:En; [|discriminate].
+      apply andb_true_iff in En as [En _]. apply N.ltb_lt in En. injection H as <-.
       pose proof (proj2 (inv_cur s I i Hh)) as Hok. rewrite Ep in Hok. unfold pc_ok in Hok.
       eapply (inv_local s i (PHeader v b) _ (takeN k (header b)) 0);
         [exact I|exact Hh|exact Ep|reflexivity|lia|discriminate| |reflexivity|reflexivity|reflexivity].
@@ -217,7 +220,8 @@ Section ConcProofs.
       rewrite takeN_app_lt by (rewrite lenN_header; lia). reflexivity.
     - (* AWrite *)
       assert (holder s = Some i) as Hh by (apply busy_is_holder; [exact I|rewrite Ep; discriminate]).
-      destruct ((sent <? size_of b) && (1 <=? k) && (k <=? lenN (dropN sent b))) eqn:Eg; [|discriminate].
+      destruct ((sent <? size_of b) && (1 <=? k) && (k <=? lenN (dropN sent b)) && negb (fx && broken s)) eqn:Eg; [|discriminate].
+      apply andb_true_iff in Eg as [Eg _].
       apply andb_true_iff in Eg as [Eg E3]. apply andb_true_iff in Eg as [E1 E2].
       apply N.leb_le in E3. rewrite lenN_dropN in E3.
       injection H as <-.
@@ -228,7 +232,8 @@ Section ConcProofs.
       unfold pc_ok. split; [exact Hm|]. split; [|lia]. subst w. now rewrite <- app_assoc, takeN_add.
     - (* AWriteFail *)
       assert (holder s = Some i) as Hh by (apply busy_is_holder; [exact I|rewrite Ep; discriminate]).
-      destruct ((sent <? size_of b) && (k <? lenN (dropN sent b))) eqn:Eg; [|discriminate].
+      destruct ((sent <? size_of b) && (k <? lenN (dropN sent b)) && (negb (fx && broken s) || (k =? 0))) eqn:Eg; [|discriminate].
+      apply andb_true_iff in Eg as [Eg _].
       apply andb_true_iff in Eg as [E1 E2]. apply N.ltb_lt in E2. rewrite lenN_dropN in E2.
       injection H as <-.
       pose proof (proj2 (inv_cur s I i Hh)) as Hok. rewrite Ep in Hok. unfold pc_ok in Hok.
@@ -263,11 +268,11 @@ Section ConcProofs.
       + apply Forall_app. split; [exact (inv_done s I)|]. constructor; [exact Hok|constructor].
   Qed.
 
-  Theorem run_inv : forall sched s s', Inv s -> runm true sched s = Some s' -> Inv s'.
+  Theorem run_inv : forall sched s s', Inv s -> runm true fx sched s = Some s' -> Inv s'.
   Proof.
     induction sched as [|ia r IH]; intros s s' I H; cbn [run] in H.
     - now injection H as <-.
-    - destruct (stepm true s ia) as [s1|] eqn:E; [|discriminate].
+    - destruct (stepm true fx s ia) as [s1|] eqn:E; [|discriminate].
       apply (IH s1 s'); [now apply (step_inv s ia)|exact H].
   Qed.
 
@@ -276,7 +281,7 @@ Section ConcProofs.
   Definition ProgInv (progs : nat -> list V) (s : state) : Prop :=
     forall i, proj i (acq s) ++ todo (thr s i) = progs i.
 
-  Lemma step_prog mx progs s ia s' : ProgInv progs s -> stepm mx s ia = Some s' -> ProgInv progs s'.
+  Lemma step_prog mx progs s ia s' : ProgInv progs s -> stepm mx fx s ia = Some s' -> ProgInv progs s'.
   Proof.
     intros P H. destruct ia as [i a]. unfold step in H.
     destruct a as [| | |k|k|k| |]; destruct (at_ (thr s i)) as [|v|v b|v b sent w|v w n ok] eqn:Ep; try discriminate;
@@ -294,11 +299,11 @@ Section ConcProofs.
   Qed.
 
   Lemma run_prog mx progs : forall sched s s',
-    ProgInv progs s -> runm mx sched s = Some s' -> ProgInv progs s'.
+    ProgInv progs s -> runm mx fx sched s = Some s' -> ProgInv progs s'.
   Proof.
     induction sched as [|ia r IH]; intros s s' P H; cbn [run] in H.
     - now injection H as <-.
-    - destruct (stepm mx s ia) as [s1|] eqn:E; [|discriminate].
+    - destruct (stepm mx fx s ia) as [s1|] eqn:E; [|discriminate].
       apply (IH s1 s'); [now apply (step_prog mx progs s ia)|exact H].
   Qed.
 
@@ -321,13 +326,13 @@ Section ConcProofs.
 
   Lemma step_allok mx s ia s' :
     (forall v, good v -> msh v <> None) -> is_fail (snd ia) = false ->
-    AllOk s -> stepm mx s ia = Some s' -> AllOk s'.
+    AllOk s -> stepm mx fx s ia = Some s' -> AllOk s'.
   Proof.
     intros Hm Hf [A1 [A2 [A3 A4]]] H. destruct ia as [i a]. cbn [snd] in Hf. unfold step in H.
     assert (forall p, p <> PIdle -> (forall v, p <> PLocked v) ->
             (forall v w n ok, p = PRet v w n ok -> ok = true) ->
             AllOk {| thr := set_pc V s i p; holder := holder s; wire := wire s; tx := tx s;
-                     acq := acq s; done := done s |} ) as Hloc.
+                     broken := broken s; acq := acq s; done := done s |} ) as Hloc.
     { intros p _ Hnl Hret. repeat split; cbn [done thr].
       - exact A1.
       - intros j v' w' n' ok'. destruct (Nat.eq_dec j i) as [->|Hne];
@@ -335,11 +340,11 @@ Section ConcProofs.
       - intros j v'. rewrite todo_set_pc. apply A3.
       - intros j v'. destruct (Nat.eq_dec j i) as [->|Hne];
           [rewrite at_set_pc; intros E; now apply Hnl in E|rewrite set_pc_other by exact Hne; apply A4]. }
-    assert (forall p w' t', AllOk {| thr := set_pc V s i p; holder := holder s; wire := wire s; tx := tx s;
-                                   acq := acq s; done := done s |} ->
-            AllOk {| thr := set_pc V s i p; holder := holder s; wire := w'; tx := t';
+    assert (forall p w' t' br, AllOk {| thr := set_pc V s i p; holder := holder s; wire := wire s; tx := tx s;
+                                      broken := broken s; acq := acq s; done := done s |} ->
+            AllOk {| thr := set_pc V s i p; holder := holder s; wire := w'; tx := t'; broken := br;
                      acq := acq s; done := done s |}) as Hwt.
-    { intros p w' t' A. exact A. }
+    { intros p w' t' br A. exact A. }
     destruct a as [| | |k|k|k| |]; try discriminate Hf;
       destruct (at_ (thr s i)) as [|v|v b|v b sent w|v w n ok] eqn:Ep; try discriminate;
       try (match type of H with (if ?c then _ else _) = _ => destruct c eqn:Ec; [|discriminate] end);
@@ -378,12 +383,12 @@ Section ConcProofs.
 
   Lemma run_allok mx : forall sched s s',
     (forall v, good v -> msh v <> None) -> forallb (fun ia => negb (is_fail (snd ia))) sched = true ->
-    AllOk s -> runm mx sched s = Some s' -> AllOk s'.
+    AllOk s -> runm mx fx sched s = Some s' -> AllOk s'.
   Proof.
     induction sched as [|ia r IH]; intros s s' Hm Hf A H; cbn [run] in H.
     - now injection H as <-.
     - cbn [forallb] in Hf. apply andb_true_iff in Hf as [Hf1 Hf2]. apply negb_true_iff in Hf1.
-      destruct (stepm mx s ia) as [s1|] eqn:E; [|discriminate].
+      destruct (stepm mx fx s ia) as [s1|] eqn:E; [|discriminate].
       apply (IH s1 s' Hm Hf2); [now apply (step_allok mx s ia)|exact H].
   Qed.
 
@@ -417,7 +422,7 @@ Section ConcProofs.
      call in progress; a call that returned nil wrote one whole frame, a call
      that returned an error wrote a strict prefix of its frame (possibly nothing) *)
   Theorem mutex_pieces progs sched s :
-    runm true sched (init progs) = Some s ->
+    runm true fx sched (init progs) = Some s ->
     wire s = concat (map c_bytes (done s)) ++ held s (fun _ p => cur_w p) [] /\
     acq s = map key (done s) ++ held s cur_call [] /\
     tx s = sumN (map c_ret (done s)) + held s (fun _ p => cur_tx p) 0 /\
@@ -459,7 +464,7 @@ Section ConcProofs.
   Theorem mutex_stream progs sched s :
     small_bufs -> (forall i v, In v (progs i) -> good v) -> (forall v, good v -> msh v <> None) ->
     forallb (fun ia => negb (is_fail (snd ia))) sched = true ->
-    runm true sched (init progs) = Some s -> holder s = None ->
+    runm true fx sched (init progs) = Some s -> holder s = None ->
     exists bs,
       Forall2 (fun kv b => msh (snd kv) = Some b) (acq s) bs /\
       wire s = stream bs /\
@@ -480,7 +485,7 @@ Section ConcProofs.
      together a permutation of everything that was to be sent *)
   Theorem finished_is_merge progs sched mx s k :
     (forall i, (k <= i)%nat -> progs i = []) ->
-    runm mx sched (init progs) = Some s -> (forall i, todo (thr s i) = []) ->
+    runm mx fx sched (init progs) = Some s -> (forall i, todo (thr s i) = []) ->
     (forall i, proj i (acq s) = progs i) /\
     Permutation (map snd (acq s)) (concat (map progs (seq 0 k))).
   Proof.
@@ -546,6 +551,7 @@ Section ConcDelivery.
   Variables (V T : Type) (type_of : V -> T) (tid_of : T -> bytes)
             (registry : bytes -> option T)
             (enc : V -> option bytes) (dec : T -> bytes -> option V).
+  Variable fx : bool.                         (* fix_n1 *)
 
   Local Notation msh := (marshal type_of tid_of registry enc).
 
@@ -598,7 +604,7 @@ Section ConcDelivery.
     (forall i, (k <= i)%nat -> progs i = []) ->
     (forall i v, In v (progs i) -> sendable limit v) ->
     no_fail sched = true ->
-    run msh true sched (init progs) = Some s ->
+    run msh true fx sched (init progs) = Some s ->
     (forall i, todo (thr s i) = []) -> holder s = None ->
     concat segs = wire s ->
     handle_all registry dec fix_f04 limit segs =
@@ -609,13 +615,13 @@ Section ConcDelivery.
                tx s = sumN (map (fun b => 4 + lenN b) bs).
   Proof.
     intros H16 Hrt HL Hk Hsend Hnf Hrun Hdone Hh Hsegs.
-    destruct (finished_is_merge V msh progs sched true s k Hk Hrun Hdone) as [Hp Hperm].
+    destruct (finished_is_merge V msh fx progs sched true s k Hk Hrun Hdone) as [Hp Hperm].
     assert (forall v, In v (map snd (acq s)) -> sendable limit v) as Hacq.
     { intros v Hv. apply in_map_iff in Hv as [[i v'] [<- Hin]]. cbn [snd].
       apply (Hsend i). rewrite <- Hp. unfold proj. apply in_map_iff. exists (i, v'). split; [reflexivity|].
       apply filter_In. split; [exact Hin|]. cbn. apply Nat.eqb_refl. }
-    destruct (mutex_pieces V msh progs sched s Hrun) as [Hw [Ha [Ht [HF _]]]].
-    pose proof (run_allok V msh (sendable limit) true sched (init progs) s) as Hall.
+    destruct (mutex_pieces V msh fx progs sched s Hrun) as [Hw [Ha [Ht [HF _]]]].
+    pose proof (run_allok V msh fx (sendable limit) true sched (init progs) s) as Hall.
     destruct Hall as [A1 _].
     { intros v [_ [b [Hb _]]] E. congruence. }
     { exact Hnf. }
@@ -634,15 +640,40 @@ Section ConcDelivery.
     - now rewrite Hsegs.
   Qed.
 
+  Lemma whole_frames_lim limit (cs : list (call V)) :
+    Forall (fun c => call_ok msh (c_val c) (c_bytes c) (c_ret c) (c_ok c)) cs ->
+    (forall c, In c cs -> c_ok c = true) ->
+    (forall c b, In c cs -> msh (c_val c) = Some b -> lenN b <= limit) ->
+    limit < 4294967296 ->
+    exists bs, Forall2 (fun kv b => msh (snd kv) = Some b) (map (key V) cs) bs /\
+               concat (map c_bytes cs) = stream bs /\ Forall (fits limit) bs.
+  Proof.
+    intros HF A1 Hlim HL. induction cs as [|c cs IH].
+    - exists []. repeat split; constructor.
+    - inversion HF as [|? ? Hc HF']; subst.
+      destruct IH as [bs [F2 [Hw Hf]]]; [exact HF'|intros c' Hc'; apply A1; now right| |].
+      { intros c' b' Hc'. apply Hlim. now right. }
+      rewrite (A1 c (or_introl eq_refl)) in Hc.
+      destruct Hc as [b [sent [Hm [Hcw [H1 [H2 Hn]]]]]].
+      pose proof (Hlim c b (or_introl eq_refl) Hm) as Hl0.
+      assert (size_of b = lenN b) as Hsz by (unfold size_of; apply N.mod_small; lia).
+      assert (sent = lenN b) as -> by lia.
+      rewrite takeN_all in Hcw by lia.
+      exists (b :: bs). cbn [map key snd]. split; [constructor; [exact Hm|exact F2]|].
+      unfold stream in *. cbn [map concat]. rewrite Hw, Hcw.
+      rewrite send_raw_small by lia. unfold header. rewrite Hsz.
+      split; [reflexivity|]. constructor; [exact Hl0|exact Hf].
+  Qed.
+
   (* (4) a Write (or the header write) of ONE call fails part-way and nothing
      is sent on the connection afterwards: the receiver dispatches the calls
      that returned nil in front of it, nothing from the broken frame, and ends
      inside a header or a body (EOF / read deadline) -- no mis-delivery *)
   Theorem mutex_failure_last progs sched s fix_f04 limit segs cs c b :
     limit < 4294967296 ->
-    (forall v b, msh v = Some b -> lenN b <= limit) ->
-    run msh true sched (init progs) = Some s -> holder s = None ->
+    run msh true fx sched (init progs) = Some s -> holder s = None ->
     done s = cs ++ [c] -> (forall c', In c' cs -> c_ok c' = true) -> c_ok c = false ->
+    (forall c' b', In c' (cs ++ [c]) -> msh (c_val c') = Some b' -> lenN b' <= limit) ->
     msh (c_val c) = Some b ->
     concat segs = wire s ->
     exists bs m,
@@ -651,26 +682,137 @@ Section ConcDelivery.
       handle_all registry dec fix_f04 limit segs =
         (local_handle registry dec bs, FinEnd (negb (m =? 0))).
   Proof.
-    intros HL Hfit Hrun Hh Hd Hok Hc Hb Hsegs.
-    destruct (mutex_pieces V msh progs sched s Hrun) as [Hw [_ [_ [HF _]]]].
+    intros HL Hrun Hh Hd Hok Hc Hfit Hb Hsegs.
+    destruct (mutex_pieces V msh fx progs sched s Hrun) as [Hw [_ [_ [HF _]]]].
     unfold held in Hw. rewrite Hh, app_nil_r, Hd in Hw. rewrite Hd in HF.
     apply Forall_app in HF as [HFcs HFc]. inversion HFc as [|? ? Hcc _]; subst.
-    assert (small_bufs msh) as Hs by (intros v b0 Hv; specialize (Hfit v b0 Hv); lia).
-    destruct (whole_frames V msh cs Hs HFcs Hok) as [bs [F2 [Hst _]]].
+    destruct (whole_frames_lim limit cs HFcs Hok) as [bs [F2 [Hst Hfits]]]; [|exact HL|].
+    { intros c' b' Hc'. apply Hfit. apply in_or_app. now left. }
     rewrite Hc in Hcc. destruct Hcc as [[Hn _]|[b' [m [Hb' [Hcw [Hm Hr]]]]]]; [congruence|].
     assert (b' = b) as -> by congruence.
     exists bs, m. repeat split; try assumption.
     rewrite handle_all_deliveries, Hsegs, Hw, map_app, concat_app, Hst. cbn [map concat].
     rewrite app_nil_r, Hcw.
-    assert (Forall (fits limit) bs) as Hfits.
-    { clear -F2 Hfit. induction F2 as [|kv b0 l l' Hm _ IH]; constructor; [|exact IH].
-      unfold fits. now apply (Hfit (snd kv)). }
     rewrite parse_all_frames_then by assumption.
-    rewrite parse_all_truncated by (try assumption; unfold fits; now apply (Hfit (c_val c))).
+    rewrite parse_all_truncated; [|exact HL| |exact Hm].
+    2:{ unfold fits. apply (Hfit c b); [apply in_or_app; right; now left|exact Hb]. }
     cbn [fst snd]. now rewrite app_nil_r, deliveries_frames.
   Qed.
 
 End ConcDelivery.
+
+(* ======================================================================== *)
+(* C03-N1 repaired (fix_n1 = true): a connection on which a Write failed is    *)
+(* dead -- not a byte more goes out, every later Send returns an error         *)
+(* ======================================================================== *)
+
+Section Dead.
+  Variable V : Type.
+  Variable msh : V -> option bytes.
+
+  Definition AllDead (s : state V) : Prop :=
+    broken s = true /\
+    forall i, match at_ (thr s i) with
+              | PBody _ _ _ _ => False
+              | PRet _ _ _ true => False
+              | _ => True
+              end.
+
+  Lemma dead_step mx s ia s' :
+    AllDead s -> step msh mx true s ia = Some s' ->
+    AllDead s' /\ wire s' = wire s /\ tx s' = tx s /\
+    (done s' = done s \/ exists c, done s' = done s ++ [c] /\ c_ok c = false).
+  Proof.
+    intros [Hb Hd] H. destruct ia as [i a]. unfold step in H. rewrite Hb in H. cbn [andb negb orb] in H.
+    pose proof (Hd i) as Hi.
+    assert (forall p, match p with PBody _ _ _ _ => False | PRet _ _ _ true => False | _ => True end ->
+            forall j, match at_ (set_pc V s i p j) with
+                      | PBody _ _ _ _ => False | PRet _ _ _ true => False | _ => True end) as Hset.
+    { intros p Hp j. unfold set_pc, upd. destruct (Nat.eqb j i); [exact Hp|apply Hd]. }
+    destruct a as [| | |k|k|k| |]; destruct (at_ (thr s i)) as [|v|v b|v b sent w|v w n ok] eqn:Ep;
+      try discriminate; try contradiction.
+    - (* ALock *)
+      destruct (todo (thr s i)) as [|v r]; [discriminate|].
+      destruct (mx && match holder s with Some _ => true | None => false end); [discriminate|].
+      injection H as <-. cbn [broken wire tx done thr]. repeat split; auto.
+      intros j. unfold upd. destruct (Nat.eqb j i); [exact I|apply Hd].
+    - (* AMarshal *)
+      injection H as <-. cbn [broken wire tx done thr]. repeat split; auto.
+      apply Hset. destruct (msh v); exact I.
+    - (* AHeaderFail *)
+      destruct ((k <? 4) && (k =? 0)) eqn:E; [|discriminate].
+      apply andb_true_iff in E as [_ E]. apply N.eqb_eq in E. subst k.
+      injection H as <-. cbn [broken wire tx done thr]. rewrite takeN_0, app_nil_r.
+      repeat split; auto. apply Hset. exact I.
+    - (* AUnlock *)
+      destruct ok; [contradiction|].
+      injection H as <-. cbn [broken wire tx done thr]. repeat split; auto.
+      + apply Hset. exact I.
+      + right. eexists. split; reflexivity.
+  Qed.
+
+  Lemma dead_run mx : forall sched s s',
+    AllDead s -> run msh mx true sched s = Some s' ->
+    AllDead s' /\ wire s' = wire s /\ tx s' = tx s /\
+    exists extra, done s' = done s ++ extra /\ forall c, In c extra -> c_ok c = false.
+  Proof.
+    induction sched as [|ia r IH]; intros s s' D H; cbn [run] in H.
+    - injection H as <-. repeat split; auto. exists []. split; [now rewrite app_nil_r|intros c []].
+    - destruct (step msh mx true s ia) as [s1|] eqn:E; [|discriminate].
+      destruct (dead_step mx s ia s1 D E) as [D1 [W1 [T1 Hd1]]].
+      destruct (IH s1 s' D1 H) as [D2 [W2 [T2 [extra [Hd2 Hx]]]]].
+      repeat split; [exact D2|congruence|congruence|].
+      destruct Hd1 as [Hd1|[c [Hd1 Hc]]].
+      + exists extra. split; [congruence|exact Hx].
+      + exists (c :: extra). split; [rewrite Hd2, Hd1, <- app_assoc; reflexivity|].
+        intros c' [<-|Hc']; [exact Hc|now apply Hx].
+  Qed.
+
+  (* a failing Write closes the connection; without a failing Write it stays open *)
+  Lemma failure_breaks mx s i n s' :
+    (step msh mx true s (i, AWriteFail n) = Some s' \/ step msh mx true s (i, AHeaderFail n) = Some s') ->
+    broken s' = true.
+  Proof.
+    intros [H|H]; unfold step in H; destruct (at_ (thr s i)); try discriminate;
+      match type of H with (if ?c then _ else _) = _ => destruct c; [|discriminate] end;
+      injection H as <-; reflexivity.
+  Qed.
+
+  Lemma unbroken mx fx : forall sched s s',
+    no_fail sched = true -> run msh mx fx sched s = Some s' -> broken s' = broken s.
+  Proof.
+    induction sched as [|[i a] r IH]; intros s s' Hf H; cbn [run] in H.
+    - now injection H as <-.
+    - unfold no_fail in Hf. cbn [forallb snd] in Hf. apply andb_true_iff in Hf as [Hf1 Hf2].
+      destruct (step msh mx fx s (i, a)) as [s1|] eqn:E; [|discriminate].
+      rewrite (IH s1 s' Hf2 H). clear IH H. unfold step in E.
+      destruct a; try discriminate Hf1; destruct (at_ (thr s i)); try discriminate;
+        try (match type of E with (if ?c then _ else _) = _ => destruct c; [|discriminate] end);
+        try (match type of E with (if ?c then _ else _) = _ => destruct c; [discriminate|] end);
+        try (destruct (todo (thr s i)); [discriminate|]);
+        try (match type of E with (if ?c then _ else _) = _ => destruct c; [discriminate|] end);
+        injection E as <-; reflexivity.
+  Qed.
+
+  (* the repaired code, with the mutex: once a Send has failed in a Write and
+     nobody is inside Send, whatever is tried on that connection afterwards --
+     any goroutines, any schedule -- puts no byte on the wire, leaves Tx alone,
+     and every call returns an error: no Send reports success for a message that
+     cannot arrive *)
+  Theorem n1_fixed_dead progs sched1 s1 sched2 s2 :
+    run msh true true sched1 (init progs) = Some s1 -> holder s1 = None -> broken s1 = true ->
+    run msh true true sched2 s1 = Some s2 ->
+    wire s2 = wire s1 /\ tx s2 = tx s1 /\
+    exists extra, done s2 = done s1 ++ extra /\ forall c, In c extra -> c_ok c = false.
+  Proof.
+    intros H1 Hh Hb H2.
+    pose proof (run_inv V msh true sched1 _ s1 (inv_init V msh progs) H1) as I.
+    assert (AllDead s1) as D.
+    { split; [exact Hb|]. intros i. rewrite (inv_idle V msh s1 I i); [exact Logic.I|]. rewrite Hh. discriminate. }
+    destruct (dead_run true sched2 s1 s2 D H2) as [_ R]. exact R.
+  Qed.
+
+End Dead.
 
 (* ======================================================================== *)
 (* (3), (4): what goes wrong -- concrete schedules                           *)
@@ -697,8 +839,14 @@ Module ConcWitness.
     [(0%nat, ALock); (0%nat, AMarshal); (0%nat, AHeader); (0%nat, AWriteFail 5); (0%nat, AUnlock)] ++
     whole_send 1 17.
 
-  Definition final (mx : bool) (sched : list (nat * act)) : option (state bytes) :=
-    run w_marshal mx sched (init progs2).
+  (* the same failure with proposed_fixes/C03-N1.diff: the connection is closed,
+     goroutine 1's header write fails without a byte *)
+  Definition sched_failure_fixed : list (nat * act) :=
+    [(0%nat, ALock); (0%nat, AMarshal); (0%nat, AHeader); (0%nat, AWriteFail 5); (0%nat, AUnlock);
+     (1%nat, ALock); (1%nat, AMarshal); (1%nat, AHeaderFail 0); (1%nat, AUnlock)].
+
+  Definition final (mx fx : bool) (sched : list (nat * act)) : option (state bytes) :=
+    run w_marshal mx fx sched (init progs2).
 End ConcWitness.
 
 Import ConcWitness.
@@ -708,7 +856,7 @@ Import ConcWitness.
    step -- for either variant of the receive loop *)
 Theorem nomutex_refuted :
   exists s,
-    final false sched_nomutex = Some s /\
+    final false false sched_nomutex = Some s /\
     (forall i, todo (thr s i) = []) /\ (forall c, In c (done s) -> c_ok c = true) /\
     tx s = 42 /\
     w_handle false limit [wire s] = ([], FinEnd true) /\
@@ -716,7 +864,7 @@ Theorem nomutex_refuted :
     fst (recv_all false limit [wire s]) <> map EvFrame [m x42; m x41] /\
     w_handle true limit [wire s] = ([], FinClosed).
 Proof.
-  destruct (final false sched_nomutex) as [s|] eqn:E; [|vm_compute in E; discriminate E].
+  destruct (final false false sched_nomutex) as [s|] eqn:E; [|vm_compute in E; discriminate E].
   exists s. vm_compute in E. injection E as <-.
   split; [reflexivity|]. split; [intros [|[|i]]; reflexivity|]. split.
   { intros c [<-|[<-|[]]]; reflexivity. }
@@ -728,13 +876,29 @@ Qed.
 (* the same two goroutines WITH the mutex, every interleaving: instance of
    mutex_stream; here one schedule, evaluated *)
 Example mutex_same_schedule_blocked :
-  final true sched_nomutex = None /\
-  exists s, final true (whole_send 1 17 ++ whole_send 0 17) = Some s /\
+  final true false sched_nomutex = None /\
+  exists s, final true false (whole_send 1 17 ++ whole_send 0 17) = Some s /\
             w_handle false limit [wire s] = ([(id0, [x42]); (id0, [x41])], FinEnd false).
 Proof.
   split; [vm_compute; reflexivity|].
-  destruct (final true (whole_send 1 17 ++ whole_send 0 17)) as [s|] eqn:E; [|vm_compute in E; discriminate E].
+  destruct (final true false (whole_send 1 17 ++ whole_send 0 17)) as [s|] eqn:E; [|vm_compute in E; discriminate E].
   exists s. vm_compute in E. injection E as <-. split; [reflexivity|vm_compute; reflexivity].
+Qed.
+
+(* ... and with the repair the same history: goroutine 1's whole Send is not
+   executable any more, its header write fails without a byte, it gets an error *)
+Example failure_then_send_fixed :
+  final true true sched_failure = None /\
+  exists s c0 c1,
+    final true true sched_failure_fixed = Some s /\ done s = [c0; c1] /\
+    c_ok c0 = false /\ c_ok c1 = false /\ c_bytes c1 = [] /\ broken s = true /\
+    w_handle false limit [wire s] = ([], FinEnd true).
+Proof.
+  split; [vm_compute; reflexivity|].
+  destruct (final true true sched_failure_fixed) as [s|] eqn:E; [|vm_compute in E; discriminate E].
+  vm_compute in E. injection E as <-.
+  eexists. eexists. eexists. split; [reflexivity|]. split; [reflexivity|].
+  repeat split; vm_compute; reflexivity.
 Qed.
 
 (* (4) with the mutex: a Write that fails part-way does not make the connection
@@ -744,13 +908,13 @@ Qed.
    takes the head of the new frame for the rest of the broken one *)
 Theorem failure_then_send_refuted :
   exists s c0 c1,
-    final true sched_failure = Some s /\ done s = [c0; c1] /\
+    final true false sched_failure = Some s /\ done s = [c0; c1] /\
     c_who c0 = 0%nat /\ c_ok c0 = false /\ c_ret c0 = 4 /\
     c_who c1 = 1%nat /\ c_ok c1 = true /\ c_bytes c1 = send_raw (m x42) /\
     w_handle false limit [wire s] = ([], FinEnd true) /\
     w_handle true limit [wire s] = ([], FinClosed).
 Proof.
-  destruct (final true sched_failure) as [s|] eqn:E; [|vm_compute in E; discriminate E].
+  destruct (final true false sched_failure) as [s|] eqn:E; [|vm_compute in E; discriminate E].
   vm_compute in E. injection E as <-.
   eexists. eexists. eexists. split; [reflexivity|]. split; [reflexivity|].
   repeat split; vm_compute; reflexivity.
